@@ -107,7 +107,8 @@ type Output struct {
 	WallS              float64        `json:"wall_s"`
 	OracleCmd          string         `json:"oracle_cmd"`
 	HarnessError       string         `json:"harness_error,omitempty"`
-	NTHashes           []string       `json:"nt_hashes,omitempty"` // shard mode only: hashes of the distinct non-trivial cases
+	Unreproduced       int            `json:"unreproduced_disagreements"` // seen once, not reproducible in 3 re-runs: not reported
+	NTHashes           []string       `json:"nt_hashes,omitempty"`        // shard mode only: hashes of the distinct non-trivial cases
 }
 
 // RunOracle feeds all lines to the oracle executable and returns its output lines.
@@ -422,6 +423,18 @@ func Main(spec Spec, args []string) {
 			if disKeys[key] || len(o.Disagreements) >= *maxDis {
 				break
 			}
+			// a disagreement must reproduce: the script is run again (up to 3 times); if the implementation and the oracle
+			// agree every time, it was a scheduling artefact of that one run — counted, reported to stderr, not a verdict
+			repro := false
+			for try := 0; try < 3 && !repro; try++ {
+				k, _, _, _, err := e.firstMismatch(c)
+				repro = err == nil && k >= 0
+			}
+			if !repro {
+				o.Unreproduced++
+				fmt.Fprintf(os.Stderr, "corr: disagreement did not reproduce in 3 re-runs (ignored): %v line %d oracle=%q impl=%q\n", c.Lines, j, w, g)
+				break
+			}
 			disKeys[key] = true
 			small := shrink(c, func(cand Case) bool {
 				k, _, _, _, err := e.firstMismatch(cand)
@@ -510,6 +523,7 @@ func runSharded(n int, args []string, out string, start time.Time) int {
 		m.Evaluations += o.Evaluations
 		m.DistinctNonTrivial += o.DistinctNonTrivial // shards run disjoint case indices
 		m.Ops += o.Ops
+		m.Unreproduced += o.Unreproduced
 		for k, v := range o.Distribution {
 			m.Distribution[k] += v
 		}
